@@ -29,8 +29,8 @@ FFI_OUTPUT_SIZE = 1200          # FFI_COMPLEXITY_OUTPUT, ffi_obj.c:26
 def generate(ctx):
     rng = ctx.rng
     cases = []
-    nctx = ctx.n(10, 120)
-    per = ctx.n(260, 1500)
+    nctx = ctx.n(8, 120)
+    per = ctx.n(250, 1500)
     for ci in range(nctx):
         dctx = G.gen_ctx(rng)
         osz = FFI_OUTPUT_SIZE if ci % 5 else rng.choice([0, 1, 2, 3, 5, 8, 13, 30])
@@ -279,30 +279,8 @@ def rep_nested_parens(toks, dctx):
     return toks
 
 
-def function_typedef_names(dctx):
-    """typedef names that denote a function type (directly, or through another such typedef)"""
-    names = set()
-    for td in dctx["typedefs"]:
-        t = td["t"]
-        d = t["decl"]
-        core = [x for x in t["specs"] if x not in G.QUALS]
-        if d["group"] is None and d["funcs"]:
-            names.add(td["name"])
-        elif d == G.empty_decl() and len(core) == 1 and isinstance(core[0], list) and core[0][0] == "name" \
-                and core[0][1] in names:
-            names.add(td["name"])
-    return names
-
-
-def void_typedef_names(dctx):
-    names = set()
-    for td in dctx["typedefs"]:
-        t = td["t"]
-        core = [x for x in t["specs"] if x not in G.QUALS]
-        if t["decl"] == G.empty_decl() and (core == ["void"] or (len(core) == 1 and isinstance(core[0], list)
-                                                                  and core[0][0] == "name" and core[0][1] in names)):
-            names.add(td["name"])
-    return names
+function_typedef_names = G.function_typedef_names
+void_typedef_names = G.void_typedef_names
 
 
 def rep_function_typedef(toks, dctx):
@@ -539,6 +517,15 @@ def rep_array_of_function(toks, dctx):
     return out
 
 
+def rep_qual_after_ellipsis(toks, dctx):
+    out = []
+    for i, t in enumerate(toks):
+        if t in G.QUALS and out and out[-1] == "...":
+            continue
+        out.append(t)
+    return out
+
+
 REPAIRS = [
     ("qualifier_between_specifiers", rep_qual_between),
     ("nested_grouping_parens", rep_nested_parens),
@@ -556,6 +543,7 @@ REPAIRS = [
     ("qualifier_first_param_as_grouping", rep_qual_first_param),
     ("parenthesised_name", rep_paren_name),
     ("array_of_function_typedef_param", rep_array_of_function),
+    ("qualifier_after_ellipsis", rep_qual_after_ellipsis),
 ]
 EXOTIC_WS = "\r\f\v"
 
